@@ -31,7 +31,7 @@ for p, more in {
     "C06": ["b64feat"],
     "C07": ["miri"],
     "C12": ["asan", "miri"],
-    "C14": ["b64feat"],
+    "C14": ["b64feat", "plain"],
     "C15": ["b64feat", "dev0", "asan", "miri"],
     "C16": ["miri"],
     "C18": ["asan"],
@@ -42,7 +42,7 @@ QUICK_EXTRA = {p: ["release"] for p in ALL}
 QUICK_EXTRA["C02"] += ["b64feat"]
 QUICK_EXTRA["C03"] += ["b64feat"]
 QUICK_EXTRA["C06"] += ["b64feat"]
-QUICK_EXTRA["C14"] += ["b64feat"]
+QUICK_EXTRA["C14"] += ["b64feat", "plain"]
 QUICK_EXTRA["C15"] += ["b64feat", "dev0"]
 
 _built = {}
@@ -70,6 +70,10 @@ def build_for(engine, build):
     elif engine == "b64feat":
         ok = build("verif", extra_env={"CARGO_TARGET_DIR": os.path.join(HARNESS, "target-b64")},
                    extra_args=["--features", "b64bytes,testable"])
+    elif engine == "plain":
+        # the small second harness (harness/plain): only the library crate and a feature-less serde_json
+        ok = build("verif", extra_env={"CARGO_TARGET_DIR": os.path.join(HARNESS, "target-plain")},
+                   extra_args=["--manifest-path", os.path.join(HARNESS, "plain", "Cargo.toml")])
     elif engine == "asan":
         ok = build("verif", toolchain="nightly",
                    extra_env={"RUSTFLAGS": "-Zsanitizer=address -Cforce-frame-pointers=yes",
@@ -101,6 +105,9 @@ def run_engine(engine, prop, tier, seed, out, extra, run_vdrive, exe_path, watch
     if engine == "b64feat":
         extra["engine"] = "b64feat"
         return run_vdrive(exe_path("verif", "target-b64"), prop, tier, seed, out, extra, timeout=watchdog)
+    if engine == "plain":
+        extra["engine"] = "plain"
+        return run_vdrive(os.path.join(os.path.dirname(exe_path("verif", "target-plain")), "vplain"), prop, tier, seed, out, extra, timeout=watchdog)
     if engine == "asan":
         extra["engine"] = "asan"
         extra.setdefault("scale", "10")
